@@ -98,8 +98,28 @@ Proof.
   destruct (ilen e' =? ilen n'); [apply F2_tl|]; exact He.
 Qed.
 
-Lemma diag_at_sim e e' m : inp_sim e e' -> diag_at e m = diag_at e' m.
-Proof. intro H. unfold diag_at. rewrite (first_range_sim _ _ H). reflexivity. Qed.
+Lemma last_sim l l' t t' : inp_sim l l' -> tok_sim t t' -> tok_sim (last l t) (last l' t').
+Proof.
+  intros Hl. revert t t'. induction Hl as [|x x' l l' Hx Hl IH]; intros t t' Ht; [exact Ht|].
+  destruct Hl as [|y y' l l' Hy Hl]; [exact Hx|].
+  change (tok_sim (last (y :: l) t) (last (y' :: l') t')). apply IH. exact Ht.
+Qed.
+
+Lemma last_tok_range_sim i i' : inp_sim i i' -> last_tok_range i = last_tok_range i'.
+Proof.
+  destruct 1 as [|t t' l l' Ht Hl]; cbn [last_tok_range]; [reflexivity|]. apply ts_range. apply last_sim; assumption.
+Qed.
+
+Lemma range_or_sim i i' fb : inp_sim i i' -> range_or i fb = range_or i' fb.
+Proof. destruct 1 as [|t t' l l' Ht _]; cbn [range_or]; [reflexivity|apply (ts_range _ _ Ht)]. Qed.
+
+Lemma err_range_sim i i' e e' : inp_sim i i' -> inp_sim e e' -> err_range i e = err_range i' e'.
+Proof.
+  intros Hi He. unfold err_range. destruct He as [|t t' l l' Ht _]; [apply last_tok_range_sim; exact Hi|apply (ts_range _ _ Ht)].
+Qed.
+
+Lemma diag_at_sim i i' e e' m : inp_sim i i' -> inp_sim e e' -> diag_at i e m = diag_at i' e' m.
+Proof. intros Hi He. unfold diag_at. rewrite (err_range_sim _ _ _ _ Hi He). reflexivity. Qed.
 
 (* ---------- contexts ---------- *)
 
@@ -362,19 +382,18 @@ Ltac sdiag :=
       end
   end.
 
-Lemma sep_diag_sim i i' e e' m : inp_sim i i' -> inp_sim e e' ->
-  mkDiag (new_range (first_range i) (match e with t :: _ => trange t | [] => first_range i end)) m =
-  mkDiag (new_range (first_range i') (match e' with t :: _ => trange t | [] => first_range i' end)) m.
+Lemma sep_diag_sim prev prev' i i' e e' m : tok_sim prev prev' -> inp_sim i i' -> inp_sim e e' ->
+  mkDiag (new_range (range_or i (trange prev)) (range_or e (range_or i (trange prev)))) m =
+  mkDiag (new_range (range_or i' (trange prev')) (range_or e' (range_or i' (trange prev')))) m.
 Proof.
-  intros Hi He. rewrite (first_range_sim _ _ Hi). destruct He as [|t t' l l' Ht _]; [reflexivity|].
-  rewrite (ts_range _ _ Ht). reflexivity.
+  intros Hp Hi He. rewrite (ts_range _ _ Hp), (range_or_sim _ _ _ Hi), (range_or_sim _ _ _ He). reflexivity.
 Qed.
 
 Lemma S_sep_list_rec {A} (RA : A -> A -> Prop) p p' sep : SimP RA p p' ->
-  forall fuel acc acc', Forall2 RA acc acc' ->
-    SimP (Forall2 RA) (sep_list_rec fuel p sep acc) (sep_list_rec fuel p' sep acc').
+  forall fuel prev prev' acc acc', tok_sim prev prev' -> Forall2 RA acc acc' ->
+    SimP (Forall2 RA) (sep_list_rec fuel p sep prev acc) (sep_list_rec fuel p' sep prev' acc').
 Proof.
-  intros Hp. induction fuel as [|f IH]; intros acc acc' Ha i i' c c' Hi Hc; cbn [sep_list_rec].
+  intros Hp. induction fuel as [|f IH]; intros prev prev' acc acc' Hprev Ha i i' c c' Hi Hc; cbn [sep_list_rec].
   - split; cbn [fst snd]; [constructor|assumption].
   - srunp Hp; cbv beta iota zeta; try sfin.
     + srunp (S_exp_token sep); try sfin.
